@@ -18,7 +18,8 @@ from .. import sysfam
 from .. import tracecheck as tc
 
 CLAUSES = {"DownloadOnlyOnDemand", "UnrequestedStayRemote", "RequestedDownloaded", "LocalFilesInSync", "FoldersMirrored",
-           "UnsyncKeepsRemote", "UnsyncRemovesLocal", "UnsyncUploadsNewerFirst", "ListingTruth", "NoEscape", "ReachesQuiet"}
+           "UnsyncKeepsRemote", "UnsyncRemovesLocal", "UnsyncUploadsNewerFirst", "ListingTruth", "NoEscape", "ReachesQuiet",
+           "FailedUnsyncKeepsLocal"}
 
 
 def generate(ctx, nops, gaps, simulate=None):
@@ -69,6 +70,14 @@ def run(ctx):
         hs4, _ = sc.slice_cases(generate(ctx, 4, ["Q", "IS", "N"]), 6000, key="smart4")
         hs += hs4
     cases = []
+    # an un-request of a requested file with a newer local edit, with a provider fault at the k-th call the engine makes during it:
+    # either the edit reaches the remote before the local copy goes (UnsyncUploadsNewerFirst) or the call fails and the local
+    # copy stays (FailedUnsyncKeepsLocal)
+    for k in range(1, 9):
+        for kind in (4, 5):
+            cases.append({"base": "std", "base_side": 1, "smart": True, "auto": [], "family": "smartfault", "kase": {"kind": "c20", "auto": []},
+                          "tokens": [["Req", "path", [10, 1]], ["Q"], ["U", 0, ["write", [10, 1], 31]], ["F", k, kind], ["Unreq", [10, 1]],
+                                     ["Q"], ["List", [10]]]})
     for auto in ([], [2]):
         for h in hs:
             cases.append({"base": "std", "base_side": 1, "tokens": h, "smart": True, "auto": auto, "family": "smart",
